@@ -98,10 +98,16 @@ structure Elem where
   cnt : CntTok
 deriving DecidableEq, Repr
 
+def isoOkOpt : Option IsoTok → Bool
+  | some t => t.ok
+  | none => true
+
+def ionOkOpt : Option IonTok → Bool
+  | some t => t.ok
+  | none => true
+
 def Elem.ok (e : Elem) : Bool :=
-  allWs e.pre && symOK e.sym &&
-  (match e.iso with | some t => t.ok | none => true) &&
-  (match e.ion with | some t => t.ok | none => true) && e.cnt.ok
+  allWs e.pre && symOK e.sym && isoOkOpt e.iso && ionOkOpt e.ion && e.cnt.ok
 
 def optText {α : Type} (f : α → List Char) : Option α → List Char
   | some t => f t
@@ -110,19 +116,23 @@ def optText {α : Type} (f : α → List Char) : Option α → List Char
 def Elem.text (e : Elem) : List Char :=
   e.pre ++ (e.sym ++ (optText IsoTok.text e.iso ++ (optText IonTok.text e.ion ++ e.cnt.text)))
 
-/-- the mass number written (0: none) -/
-def Elem.isoNum (e : Elem) : Nat :=
-  match e.iso with
+def isoNumOpt : Option IsoTok → Nat
   | some t => natOf t.ds
   | none => 0
 
-/-- the charge written (0: none; a bare sign is ±1) -/
-def Elem.charge (e : Elem) : Int :=
-  match e.ion with
+def IonTok.charge (t : IonTok) : Int :=
+  if t.neg then -(((if t.mag.isEmpty then 1 else natOf t.mag : Nat)) : Int)
+  else (((if t.mag.isEmpty then 1 else natOf t.mag : Nat)) : Int)
+
+def chargeOpt : Option IonTok → Int
+  | some t => t.charge
   | none => 0
-  | some t =>
-    if t.neg then -(((if t.mag.isEmpty then 1 else natOf t.mag : Nat)) : Int)
-    else (((if t.mag.isEmpty then 1 else natOf t.mag : Nat)) : Int)
+
+/-- the mass number written (0: none) -/
+def Elem.isoNum (e : Elem) : Nat := isoNumOpt e.iso
+
+/-- the charge written (0: none; a bare sign is ±1) -/
+def Elem.charge (e : Elem) : Int := chargeOpt e.ion
 
 /-- the atom the element names in table `T`; `none`: the table does not define the symbol, the
     isotope (D and T take no isotope tag) or the charge -/
